@@ -501,7 +501,7 @@ def extra_units():
     from contracts import c05
     from pyvc.units import share
     # "... and contains every record": a fault-free multiprocess run loses no contig (job list of C05)
-    return [share(c05.run_tagging_tasks, PROP)] + [share(u, PROP) for u in c05.JOB_UNITS]
+    return [share(c05.run_tagging_tasks, PROP)] + [share(u, PROP) for u in c05.JOB_UNITS] + [share(c05.contigs_with_reads, PROP)]
 
 
 # ------------------------------------------------------------------------------ run_multiome_tagging: a stale success marker
